@@ -191,6 +191,16 @@ void copy_t(Case& c) {
   // independent of the padding convention of the input
   Adj seen           = enumerateFileGraph<T>(a);
   ref::RefGraph seenG = fromAdj(seen, c.width);
+  if (c.variant >= 4) {
+    // no copy: toFile of the file-backed graph itself (what graph-convert does when a conversion has nothing to
+    // change: "copy input to output")
+    std::string out = c.path("direct");
+    a.toFile(out);
+    c.filesWrittenByLib++;
+    checkFile<T>(c, out, seenG, cls);
+    checkReadBack<T>(c, out, seenG, cls);
+    return;
+  }
   gg::FileGraph b;
   if (assign) {
     gg::FileGraph tmp;
